@@ -60,7 +60,7 @@ CHECKS = {
          "Interleavings are those the Go scheduler and the verifhook points produce; SHA-256; a process death inside immudb code is reported as a violation (crash/...); a store that stops making progress is inconclusive, not a violation.", "DESIGN.md 2/C02"),
  # id: (category, technique, level text, level note, design ref)
  "C15": ("exploration", "runtime oracle: round-trip + order relation against an independent comparator over PRNG/boundary/neighbour values",
-         "Held on the millions of generated values and pairs actually encoded and decoded by the real codecs (key and value encoders, tx header/metadata, proto conversions, ExportTx->ReplicateTx->ExportTx on live stores, ORDER BY through real indexes); no claim beyond the generated values.",
+         "Held on the millions of generated values and pairs actually encoded and decoded by the real codecs (key and value encoders, tx header/metadata, proto conversions, ExportTx->ReplicateTx->ExportTx on live stores, ORDER BY through real indexes, and values entering the engine through CAST / implicit parameter coercion for every supported source->destination pair: stored = converted, equal values give equal keys, index lookup finds the row); no claim beyond the generated values.",
          "Trusts the harness comparator (numeric, IEEE with -0==+0, bytewise, chronological), SHA-256, and that NaN has no SQL order.", "DESIGN.md 2/C15"),
 }
 
